@@ -39,6 +39,7 @@ class Spec:
         self.ghost = {}    # mod -> [text]
         self.external = {}  # path -> reason
         self.ignore = {}
+        self.detrait = {}
         self.files = []
 
     def entry(self, path):
@@ -87,6 +88,9 @@ class Spec:
                 m = re.match(r'@@\s*ignore\s+(\S+)\s*(?::\s*(.*))?$', line)
                 if m:
                     self.ignore[m.group(1)] = m.group(2) or ''; continue
+                m = re.match(r'@@\s*detrait\s+(\S+)\s*(?::\s*(.*))?$', line)
+                if m:
+                    self.detrait[m.group(1)] = m.group(2) or ''; continue
                 m = re.match(r'@@\s*ghost\s+(\w+)\s*$', line)
                 if m:
                     mod = m.group(1)
@@ -394,6 +398,10 @@ def apply_rewrites(src, mask, it, ed, stats, spec_entry):
     return
 
 
+def it_line(src, it):
+    return src.count('\n', 0, it['start']) + 1
+
+
 def first_param(src, it):
     m = re.search(r'\(\s*(?:mut\s+)?([A-Za-z_][A-Za-z0-9_]*)\s*:', src[it['kw']:it['body_start']])
     return m.group(1) if m else None
@@ -605,6 +613,36 @@ def assemble(repo, spec, rows=None, canary=None, opts=None):
                         if c['kind'] == 'fn' and c['body_start'] is not None:
                             u = Unit(fn_path(mod, c), mod, 'ignored', src.count('\n', 0, c['kw']) + 1, spec.ignore[p])
                             units.append(u); ctx['marks'].append((len(units) - 1, c['start'], c['end'])); stats['fns_total'] += 1
+                    if p in spec.detrait:
+                        # DETRAIT: the methods of an ignored trait impl are re-emitted, bodies verbatim, as inherent methods
+                        # `<name>__detrait` of the same type (drops: the `impl Trait for` header, `type X = ..;` items; `Self::X` is
+                        # replaced by the declared type), so that they can carry contracts without vstd's trait-level obligations
+                        hdr = src[it['kw']:it['body_start']]
+                        hm = re.match(r'(impl\s*(?:<[^{]*?>)?\s*)([\w:]+(?:<[^{]*?>)?)\s+for\s+(.+?)\s*$', hdr, re.S)
+                        if not hm: raise ToolError('detrait: cannot parse impl header %r' % hdr)
+                        body = src[it['body_start'] + 1:it['end'] - 1]
+                        assoc = dict(re.findall(r'type\s+(\w+)\s*=\s*([^;]+);', body))
+                        parts = []
+                        for c in it.get('children', []):
+                            if c['kind'] != 'fn' or c['body_start'] is None: continue
+                            t = src[c['start']:c['end']]
+                            for an, at in assoc.items():
+                                t = re.sub(r'\bSelf::%s\b' % an, at.strip(), t)
+                            t = re.sub(r'\bfn\s+(%s)\b' % re.escape(c['name']), 'pub fn ' + c['name'] + '__detrait', t, count=1)
+                            parts.append((c, t))
+                        sub = '%s%s {\n%s\n}\n' % (hm.group(1), hm.group(3), '\n'.join(t for _, t in parts))
+                        smask = rsitems.scan_tokens(sub)
+                        sits = rsitems.items(sub, mask=smask)
+                        sctx = dict(src=sub, mask=smask, ed=Edits(sub), marks=[], line_off=src.count('\n', 0, it['start']))
+                        for si in sits:
+                            for sc in si.get('children', []):
+                                if sc['kind'] == 'fn':
+                                    handle_fn(sc, sctx, path_override='%s::%s::%s' % (mod, ty, sc['name']))
+                        for idx, a, b in sctx['marks']:
+                            sctx['ed'].insert(a, '/*U<%d*/' % idx, prio=-5); sctx['ed'].insert(b, '/*U>*/', prio=5)
+                        t, lm = sctx['ed'].apply()
+                        copies.append((t if t.endswith('\n') else t + '\n', [(x and it_line(src, it)) for x in lm]))
+                        stats['detrait_methods'] = stats.get('detrait_methods', 0) + len(parts)
                     continue
                 for c in it.get('children', []):
                     if c['kind'] == 'fn': handle_fn(c, ctx)
